@@ -5,13 +5,13 @@
    instances x file order) that `vdrive grpcwire` renders and runs through the real code. *)
 EXTENDS GrpcWire, Json, SequencesExt, IOUtils
 
-CONSTANTS MaxInst, MaxFile, Kinds, Full
+CONSTANTS MaxInst, MaxFile, Kinds, Full, Cfgs
 
 (******************************* catalogue *********************************)
 F(f, d, t) == [f |-> f, pre |-> IF f \in {"user_id", "item_id"} THEN "" ELSE d \o "." \o f, tok |-> t]
 M(k, d, t) == [k |-> k, pre |-> d \o "." \o k, tok |-> t]
 Step(d, call, bad, tag, fs, ks, t) ==
-    [def |-> d, call |-> Svc \o call, bad |-> bad, tag |-> tag,
+    [def |-> d, call |-> Svc \o call, bad |-> bad, tag |-> tag, sleep |-> 0,
      fields |-> {F(f, d, t) : f \in fs}, md |-> {M(k, d, t) : k \in ks}]
 
 J1 == [name |-> "e1", steps |-> <<Step("e1", "Hello", "none", "e1", {"name"}, {"a"}, "5001")>>]
@@ -23,10 +23,19 @@ S1 == [name |-> "s1", steps |-> <<Step("c1", "Order", "none", "s1.c1", {"token",
 S2 == [name |-> "s2", steps |-> <<Step("c2", "Nope2", "unknown", "s2.c2", {}, {"a"}, ""), TailStep("s2")>>]
 S3 == [name |-> "s3", steps |-> <<Step("c3", "Auth", "illtyped", "s3.c3", {"login"}, {}, ""), TailStep("s3")>>]
 
-Cat(k) == IF k = "json" THEN {J1, J2, J3, J4} ELSE {S1, S2, S3}
+\* an undecodable line (continue-on-error): no call, no tag of its own
+J5 == [name |-> "!invalid", steps |-> <<[Step("e5", "?", "undecodable", "*", {}, {}, "5005") EXCEPT !.call = "?"]>>]
+\* think time between the steps: 2 + 2 ticks against a per-call timeout of 3
+Slp(st, n) == [st EXCEPT !.sleep = n]
+S4 == [name |-> "s4", steps |-> <<Slp(Step("c4", "Hello", "none", "s4.c4", {"name"}, {}, ""), 2), Slp(TailStep("s4"), 2),
+                                  [TailStep("s4") EXCEPT !.tag = "s4.ct2"]>>]
+Cat(k) == IF k = "json" THEN {J1, J2, J3, J4, J5} ELSE {S1, S2, S3, S4}
 Files(k) == UNION {[1..n -> Cat(k)] : n \in 1..MaxFile}
 
-Init == \E k \in Kinds : \E f \in Files(k) : \E n \in 1..MaxInst : InitWith(k, f, n)
+Init == \E k \in Kinds : \E f \in Files(k) : \E n \in 1..MaxInst : \E c \in Cfgs : InitCfg(k, f, n, c)
+PlainCfg == {DefaultCfg}
+TwoCfgs == {DefaultCfg, [shared |-> TRUE, refl |-> TRUE, T |-> 3]}
+HardCfg == {[shared |-> TRUE, refl |-> TRUE, T |-> 3]}
 Spec == Init /\ [][Next]_vars
 
 JsonOnly == {"json"}
@@ -48,8 +57,11 @@ BadSet  == {Abs("Hello", <<>>, mds, "unknown", "rot", "rot") : mds \in {{}, {"a"
            \cup {a \in {Abs(m, fs, mds, "illtyped", "rot", "rot") : m \in Methods,
                         fs \in UNION {FieldSubsets(mm) : mm \in Methods}, mds \in {{}, {"b"}}} :
                  a.fields \in FieldSubsets(a.call)}
+\* lines that are not a grpc/json entry at all (continue-on-error: skipped with a failed sample, never sent);
+\* md carries the KIND of garbage for the renderer
+Undecodable == {Abs("Hello", <<>>, {}, "undecodable", g, "rot") : g \in {"truncated", "notjson", "array", "payloadstring"}}
 GoodSeq == SetToSeq(GoodSet)
-BadSeq  == SetToSeq(BadSet)
+BadSeq  == SetToSeq(BadSet \cup Undecodable)
 \* bad entries interleaved with good ones: one bad entry after every K good ones, the rest of the good at the end
 K == Len(GoodSeq) \div Len(BadSeq)
 RECURSIVE Weave(_)
@@ -57,7 +69,8 @@ Weave(j) == IF j > Len(BadSeq) THEN SubSeq(GoodSeq, (j - 1) * K + 1, Len(GoodSeq
             ELSE SubSeq(GoodSeq, (j - 1) * K + 1, j * K) \o <<BadSeq[j]>> \o Weave(j + 1)
 Woven == Weave(1)
 N == Len(Woven)
-Rot(a, i) == [a EXCEPT !.style = IF @ = "rot" THEN (IF i % 2 = 0 THEN "camel" ELSE "proto") ELSE @,
+Rot(a, i) == IF a.bad = "undecodable" THEN a ELSE
+             [a EXCEPT !.style = IF @ = "rot" THEN (IF i % 2 = 0 THEN "camel" ELSE "proto") ELSE @,
                        !.num   = IF @ = "rot" THEN (IF (i \div 2) % 2 = 0 THEN "number" ELSE "string") ELSE @]
 Entry(i) == [id |-> i] @@ Rot(Woven[i], i)
 \* the expected observable of every entry, computed here: is the call received, how many ok / failed samples
@@ -74,10 +87,21 @@ Fwd == [i \in 1..N |-> ((i - 1 + Shift) % N) + 1]
 Rev == [i \in 1..N |-> ((N - i + Shift) % N) + 1]
 BadIdx == SelectSeq(Fwd, LAMBDA i : Woven[i].bad # "none")
 BadFirst == BadIdx \o SelectSeq(Fwd, LAMBDA i : Woven[i].bad = "none")
-Run(k, s, n, o, x) == [kind |-> k, shared |-> s, inst |-> n, order |-> o, extra |-> x]
-Runs == <<Run("json", FALSE, 1, Fwd, 0), Run("json", TRUE, 2, Rev, 0), Run("json", FALSE, 3, BadFirst, 0),
-          Run("json", TRUE, 1, BadFirst, 0), Run("json", FALSE, 2, Fwd, 0), Run("json", TRUE, 3, Rev, 0),
-          Run("scn", FALSE, 1, Fwd, 0), Run("scn", FALSE, 2, Rev, 40), Run("scn", FALSE, 3, BadFirst, N)>>
+\* undecodable lines exist in files only (scenario definitions have no lines)
+Scn(o) == SelectSeq(o, LAMBDA i : Woven[i].bad # "undecodable")
+\* a run: kind, shared-client (with `clients` pooled clients), instances, file order, extra scenario shots,
+\* refl: reflection served on ANOTHER port by ANOTHER server (reflect_port), timeout (ms, 0 = the 120 s default
+\* of the driver), sleeps: think time (ms) after step 1 and step 2 of the <entry, tail, tail> scenarios
+Run(k, s, c, n, o, x, r) == [kind |-> k, shared |-> s, clients |-> c, inst |-> n, order |-> o, extra |-> x, refl |-> r,
+                             timeout |-> 0, sleeps |-> <<>>]
+\* "within the configured timeout" is per call: timeout T, think time 0.6 T + 0.6 T between three fast calls
+SlowT == 1000
+SlowRun == [Run("scn", FALSE, 1, 4, SubSeq(Scn(SelectSeq(Fwd, LAMBDA i : Woven[i].bad = "none")), 1, 4), 0, FALSE)
+            EXCEPT !.timeout = SlowT, !.sleeps = <<(SlowT * 6) \div 10, (SlowT * 6) \div 10>>]
+Runs == <<Run("json", FALSE, 1, 1, Fwd, 0, FALSE), Run("json", TRUE, 1, 2, Rev, 0, TRUE), Run("json", FALSE, 1, 3, BadFirst, 0, TRUE),
+          Run("json", TRUE, 3, 1, BadFirst, 0, TRUE), Run("json", FALSE, 1, 2, Fwd, 0, FALSE), Run("json", TRUE, 2, 3, Rev, 0, FALSE),
+          Run("scn", FALSE, 1, 1, Scn(Fwd), 0, TRUE), Run("scn", FALSE, 1, 2, Scn(Rev), 40, FALSE), Run("scn", FALSE, 1, 3, Scn(BadFirst), N, FALSE),
+          SlowRun>>
 CaseDoc == [entries |-> EntriesOut, tail |-> TailId, runs |-> Runs]
 
 GenInit == InitWith("json", <<>>, 1) /\ PrintT(<<"VERIF", ToJson(CaseDoc)>>)
